@@ -1,5 +1,6 @@
 #!/usr/bin/env python3
-"""Print the markdown table of seeded changes (from seeded/*/meta.json) for DESIGN.md."""
+"""Write /verif/seeded/INDEX.md: one row per seeded change (from seeded/*/meta.json) and print a summary
+for DESIGN.md."""
 import glob, json, os, re
 rows = []
 for d in sorted(glob.glob("/verif/seeded/*")):
@@ -7,14 +8,35 @@ for d in sorted(glob.glob("/verif/seeded/*")):
     if not os.path.exists(mp):
         continue
     m = json.load(open(mp))
+    name = os.path.basename(d)
+    rnd = {"m1": 1, "m2": 1, "m3": 2, "m4": 2, "m5": 3, "m6": 3}.get(name.split("-")[1], "?")
     rules = sorted({re.sub(r"^violated (\S+) at .*", r"\1", r) for r in (m.get("reported_rules") or [])})
-    site = ""
     diff = open(os.path.join(d, "patch.diff")).read()
     files = sorted(set(re.findall(r"^\+\+\+ b/(\S+)", diff, re.M)))
     summ = (m.get("summary") or "").replace("\n", " ").replace("|", "/")
-    rows.append((os.path.basename(d), ", ".join(f.replace("dask/", "") for f in files), "yes" if m.get("detected_by_check") else "**no**", ", ".join(rules)[:110] if rules else (m.get("history") or "")[:110], summ[:150]))
-print("| seed | file(s) | caught | reported rule(s) | what the change does |")
-print("|---|---|---|---|---|")
+    c = m.get("confirmed", {})
+    scope = c.get("suite_scope")
+    if c.get("suite_matches_baseline") is True:
+        suite = "whole pinned suite: same as baseline" if scope in (None, "whole pinned suite") else "pinned tests under " + ", ".join(scope) + ": same as baseline"
+    elif c.get("suite_matches_baseline") is False:
+        suite = "SUITE DIFFERS"
+    else:
+        suite = "not run"
+    demo = f"{c.get('demo_on_original_rc')}/{c.get('demo_on_changed_rc')}"
+    rows.append((name, str(rnd), ", ".join(f.replace("dask/", "") for f in files), "yes" if m.get("detected_by_check") else "**no**", ", ".join(r.split(".", 1)[1] for r in rules)[:120], demo, suite, summ[:160]))
+with open("/verif/seeded/INDEX.md", "w") as f:
+    f.write("# Seeded changes\n\nEach directory holds patch.diff (apply with `git -C /repo apply`), demo.py (exit 0 on /repo, non-zero with the patch) and meta.json.\n`demo` = exit code on the unchanged tree / with the patch.  `caught` = the property's quick check prints VIOLATION with the patch applied.\n\n")
+    f.write("| seed | round | file(s) | caught | reported rule(s) | demo | suite with the patch | what the change does |\n|---|---|---|---|---|---|---|---|\n")
+    for r in rows:
+        f.write("| " + " | ".join(r) + " |\n")
+by_round = {}
 for r in rows:
-    print("| " + " | ".join(r) + " |")
-print(f"\n{sum(1 for r in rows if r[2]=='yes')} of {len(rows)} seeded changes are reported by the property's quick check.")
+    by_round.setdefault(r[1], [0, 0, 0, 0])
+    by_round[r[1]][0] += 1
+    by_round[r[1]][1] += r[3] == "yes"
+    by_round[r[1]][2] += r[6].endswith("same as baseline")
+    by_round[r[1]][3] += r[6] == "SUITE DIFFERS"
+for k in sorted(by_round):
+    n, det, ok, bad = by_round[k]
+    print(f"round {k}: {n} seeds, {det} caught, suite confirmed for {ok}, suite differs for {bad}")
+print(f"total {len(rows)} seeds, {sum(1 for r in rows if r[3]=='yes')} caught")
